@@ -46,7 +46,8 @@ ASSUMPTIONS = [
 
 # out-of-service parts and open switches are added by _perturb below (netgen's float draws make most networks dead)
 PROFILE = netgen.profile(oos=0, open_prob=0.0, noslack_island=False, dcline=False, second_slack=4, nb_level=(1, 4),
-                         level_sets=netgen.LEVEL_SETS + [[110.0, 20.0], [20.0, 0.4], [110.0, 20.0, 0.4], [220.0, 110.0, 10.0]],
+                         level_sets=netgen.LEVEL_SETS + [[110.0, 20.0], [20.0, 0.4]] + 2 * [[110.0, 20.0, 0.4], [220.0, 110.0, 10.0],
+                                                                                          [380.0, 110.0, 20.0]],
                          bus_kinds={"load": 5, "sgen": 3, "gen": 2, "storage": 1, "shunt": 2, "ward": 1, "xward": 0,
                                     "motor": 1, "asymmetric_load": 0, "asymmetric_sgen": 0})
 
@@ -289,6 +290,15 @@ def build_rows(net, T, plan, opt, res):
         return {"mt": mt, "et": tab, "el": int(idx), "side": side, "bus": int(b), "value": float(val), "sd": sd,
                 "slot": (mt, tab, int(idx), side), "dead": dead}
 
+    def carries_current(tab, idx, side):
+        """|I| is not differentiable at I = 0: current magnitude measurements only at terminals that carry >= 0.1 % of the
+        level's current scale (a dead branch is fine: its measurement is dropped by the estimator)"""
+        if not branch_live(net, tab, idx, side):
+            return True
+        b = net[tab].at[idx, side + "_bus"]
+        s_, vn = T.level_scale(b)
+        return _nz(net["res_" + tab].at[idx, "i_%s_ka" % side]) * math.sqrt(3) * vn >= 1e-3 * s_
+
     def node_pq(b, f, which=("p", "q")):
         out = []
         for m in T.members(T.node[b]):
@@ -364,6 +374,8 @@ def build_rows(net, T, plan, opt, res):
             if not c:
                 continue
             idx, s = c[(x["e"] * 3 + x["s"]) % len(c)]
+            if x["k"] == "i" and not carries_current(x["et"], idx, s):
+                continue
             new = [branch_row(x["k"], x["et"], idx, s, x["sd"], dead=not branch_live(net, x["et"], idx, s))]
         for _ in range(1 + x["dup"]):
             rows.extend(dict(r) for r in new)
@@ -376,7 +388,8 @@ def build_rows(net, T, plan, opt, res):
                 for s in sides:
                     if branch_live(net, tab, idx, s):
                         for mt in ("p", "q", "i"):
-                            rows.append(branch_row(mt, tab, idx, s, 1.0))
+                            if mt != "i" or carries_current(tab, idx, s):
+                                rows.append(branch_row(mt, tab, idx, s, 1.0))
     info = {"core": core, "n_core": n_core, "core_slots": core_slots, "sparse_nodes": sparse_nodes}
     return rows, info
 
@@ -500,6 +513,15 @@ def check(case):
     if not T.buses:
         res.skipped = "nothing-energized"
         return res
+    # trusted-base guard: when every energized bus is a slack bus, runpp bypasses the solver and builds the voltages
+    # from the magnitudes only (powerflow.py:_bypass_pf_and_set_results) - slack angle setpoints != 0 are dropped
+    slack_nodes = {T.node[b] for b in net.ext_grid.bus.values[net.ext_grid.in_service.values.astype(bool)] if b in T.alive}
+    if len(net.gen):
+        g = net.gen[net.gen.in_service.values.astype(bool) & net.gen.slack.values.astype(bool)]
+        slack_nodes |= {T.node[b] for b in g.bus.values if b in T.alive}
+    if all(T.node[b] in slack_nodes for b in T.buses) and (net.ext_grid.va_degree.values != 0).any():
+        res.skipped = "pf-bypass-drops-slack-angles"
+        return res
     rows, info = build_rows(net, T, plan, opt, res)
     base = copy.deepcopy(net)           # solved network without measurements
     sab = bool(plan["side_as_bus"])
@@ -515,7 +537,7 @@ def check(case):
     alg, init = opt["algorithm"], opt["init"]
     # root-cause class of a failure: the first applicable fact about the input (specific shapes first)
     no_dc_init = False
-    if init == "flat" and not (net.trafo.shift_degree.values != 0).any():
+    if (init == "flat" or T.n_aux > 0) and not (net.trafo.shift_degree.values != 0).any():
         # estimate() starts the angles from a DC power flow only if a two-winding transformer has shift_degree != 0
         for idx in net.trafo3w.index[net.trafo3w.in_service.values.astype(bool)]:
             if net.trafo3w.at[idx, "shift_mv_degree"] != 0 or net.trafo3w.at[idx, "shift_lv_degree"] != 0:
@@ -532,14 +554,14 @@ def check(case):
     elif alg == "wls_with_zero_constraint" and sn != 1.0:
         fsig = "zero-constraint-sn!=1"
     elif no_dc_init:
-        fsig = "flat+phase-shift-no-dc-init"
-    elif alg == "irwls" and T.n_aux > 0:
-        fsig = "irwls+open-end-aux-bus"
+        fsig = "phase-shift-no-dc-init"
+    elif alg in ("irwls", "wls_with_zero_constraint") and T.n_aux > 0:
+        fsig = "no-sigma-clamp+aux-bus"
     elif init == "flat" and has_i:
         fsig = "flat+i-meas"
     else:
         fsig = "plain"
-    shape = fsig in ("side-as-bus", "t3-terminal-oos", "zero-constraint-sn!=1", "flat+phase-shift-no-dc-init")
+    shape = fsig in ("side-as-bus", "t3-terminal-oos", "zero-constraint-sn!=1", "phase-shift-no-dc-init")
 
     def sig(coarse, fine):
         """known input shapes get one coarse signature per kind of observation, everything else a detailed one"""
@@ -566,6 +588,10 @@ def check(case):
                       (len(T.buses) < len(net.bus), "dead-bus"), (has_i, "i-meas"),
                       (any(r["mt"] in ("p", "q") and r["et"] != "bus" for r in rows), "flow-meas"),
                       (any(r.get("dead") for r in rows), "dead-branch-meas"),
+                      (any(r["et"] == "trafo" and not r.get("dead") for r in rows), "meas:trafo"),
+                      (any(r["et"] == "trafo3w" and not r.get("dead") for r in rows), "meas:trafo3w"),
+                      (any(r["et"] == "trafo3w" and r["mt"] == "i" and not r.get("dead") for r in rows), "meas:trafo3w-i"),
+                      (any(r["et"] == "trafo" and r["mt"] == "i" and not r.get("dead") for r in rows), "meas:trafo-i"),
                       (len(rows) > len({(r["slot"], r["sd"]) for r in rows}), "exact-duplicates"),
                       (bool(net.shunt.in_service.any()) if len(net.shunt) else False, "shunt"),
                       (bool(net.ward.in_service.any()) if len(net.ward) else False, "ward"),
@@ -600,9 +626,9 @@ def check(case):
                 return "fail", ("exc/no_inj_bus@estimation/ppc_conversion.py:_add_zero_injection", {"error": repr(e)[:300]})
             return "fail", (sig("exc", "exc/" + where), {"error": repr(e)[:300]})
         if not _success(r):
-            if init == "flat" and stressed:
+            if stressed and (init == "flat" or T.n_aux > 0):
                 # Gauss-Newton from a flat start is not expected to reach an extreme operating point (documented return value False)
-                return "skip", "flat-start-not-converged:stressed-state"
+                return "skip", "not-converged:stressed-state"
             return "fail", (sig("not-successful", "not-successful/%s/%s" % (alg, init)),
                             {"returned": repr(r)[:200], "loading": loading, "vmdev": vmdev})
         return "ok", None
